@@ -79,6 +79,12 @@ def position_parts(px, st, t):
         return v
     a, b = val(rv[2][0]), val(rv[2][1])
     pv = val(probe)
+    # derived PartialEq of a newtype compares the inner fields: `x.0 == y.0` is `x == y`
+    for _ in range(4):
+        if a[0] == 'fld' and b[0] == 'fld' and a[2] == b[2] and a != pv and b != pv:
+            a, b = val(a[1]), val(b[1])
+        else:
+            break
     if a == pv:
         return owner, b
     if b == pv:
